@@ -82,8 +82,10 @@ def gen_build_history(rng, latlon, mag, sqlite_features=True, queries=("nodes", 
     rest = list(cand_edges)
     if sqlite_features and rng.random() < 0.35 and rest:
         k = rng.randint(1, len(rest))
-        ops.append({"op": "add_edges", "edges": [[labels[a], labels[b]] for a, b in rest[:k]],
-                    "no_index": rng.random() < 0.3})
+        rows = [[labels[a], labels[b]] for a, b in rest[:k]]
+        if rng.random() < 0.3:
+            rows = [r + [rng.randint(1, 9), rng.randint(0, 3)] for r in rows]      # (a, b, path, pathnum)
+        ops.append({"op": "add_edges", "edges": rows, "no_index": rng.random() < 0.3})
         rest = rest[k:]
     for a, b in rest:
         op = {"op": "add_edge", "a": labels[a], "b": labels[b]}
@@ -94,6 +96,9 @@ def gen_build_history(rng, latlon, mag, sqlite_features=True, queries=("nodes", 
                 op["no_index"] = True
             if rng.random() < 0.2:
                 op["with_loc"] = True
+            if rng.random() < 0.15:
+                op["attrs"] = {"speed": rng.choice([8.3, 13.9, 33.3]), "edge_type": rng.randint(0, 5),
+                               "path": rng.randint(1, 9), "pathnum": rng.randint(0, 3)}
         ops.append(op)
     if sqlite_features and rng.random() < 0.1 and cand_edges:
         a, b = rng.choice(cand_edges)
@@ -330,6 +335,7 @@ class StoreSession:
                 kw = {}
                 if op.get("with_loc"):
                     kw = {"loc_a": tuple(nodes[a]), "loc_b": tuple(nodes[b])}
+                kw.update(op.get("attrs") or {})
                 sq.add_edge(a, b, no_index=bool(op.get("no_index")), no_commit=bool(op.get("no_commit")), **kw)
             if im is not None and a in self.im_ref.loc and b in self.im_ref.loc:
                 im.add_edge(a, b)
@@ -343,12 +349,13 @@ class StoreSession:
             self.mutations += 1
         elif k == "add_edges":
             have = set(ref.view()["edges"])
-            edges = [(a, b) for a, b in op["edges"] if (a, b) not in have]
-            edges = list(dict.fromkeys(edges))
+            rows = [tuple(r) for r in op["edges"] if (r[0], r[1]) not in have]
+            rows = list({(r[0], r[1]): r for r in rows}.values())
+            edges = [(r[0], r[1]) for r in rows]
             if not edges:
                 return
             if sq is not None:
-                sq.add_edges(edges, no_index=bool(op.get("no_index")))
+                sq.add_edges(rows, no_index=bool(op.get("no_index")))
             for a, b in edges:
                 if im is not None and a in self.im_ref.loc and b in self.im_ref.loc:
                     im.add_edge(a, b)
